@@ -48,7 +48,7 @@ impl StubCtx {
         }
     }
 
-    fn record<F: EncoderValue>(&mut self, frame: &F) -> bool {
+    fn record<F: EncoderValue + FrameTrait>(&mut self, frame: &F) -> bool {
         let size = frame.encoding_size();
         if size > self.capacity || size > FRAME_BUF {
             return false;
@@ -58,7 +58,11 @@ impl StubCtx {
         self.last_frame_len = enc.len();
         self.capacity -= size;
         self.frames_written += 1;
-        self.eliciting = true;
+        // a packet is ack-eliciting as soon as it holds one ack-eliciting frame (ACK/PADDING/
+        // CONNECTION_CLOSE are not)
+        if frame.ack_elicitation().is_ack_eliciting() {
+            self.eliciting = true;
+        }
         true
     }
 }
